@@ -63,7 +63,45 @@ def _exec_template(t: int, nul: int, fail: int, vs: int, hist: int) -> bool:
     return result(ok, True)
 
 
+PIECES = ("owner { name }", "... on Dog { owner { age } }", "... on Cat { owner { id } }", "... on Dog { barks }", "name",
+          "... on Animal { owner { best { name } } }", "... on Node { id }", "owner { n2: name }")
+
+
+def _exec_abstract(mask: int, reverse: bool, fail: int, frag: bool) -> bool:
+    """
+    pre: 1 <= mask < 256 and 0 <= fail < len(G.FAILS)
+    pre: shard_of(mask)
+    pre: thorough() or fail == 0 or fail == 1
+    post: _
+    """
+    M = concrete_int(mask, 1, 255)
+    REV, FR = (True if reverse else False), (True if frag else False)
+    FAIL = pick(fail, G.FAILS)
+    with untraced():
+        sel = " ".join(p for i, p in enumerate(PIECES) if M >> i & 1)
+        if FR:
+            text = "{ animals { ...Sel } } fragment Sel on Animal { %s }" % sel
+        else:
+            text = "{ animals { %s } }" % sel
+        schema = G.build_real_schema(FAIL)
+        doc = parse(text)
+        if validate_ast(schema, doc).errors:
+            return result(True, False)
+        nul = "animals.reversed" if REV else None
+        got_data, got_errs, msgs = real_run(schema, text, {}, G.make_data(nul), None)
+        exp_data, exp_errs = ref_run(text, {}, G.make_data(nul), None, FAIL)
+        ok = json.dumps(got_data) == json.dumps(exp_data) and got_errs == exp_errs
+    return result(ok, True)
+
+
 CONDITIONS = [
+    Cond(
+        name="exec_abstract", fn=_exec_abstract, quick=100, thorough=400, per_path=60, shards_quick=16, shards_thorough=16,
+        bound="list of an interface type holding two object types in either order: every non-empty subset of 8 selection pieces (plain field, type-conditioned fragments on each member, on the interface, on another interface, "
+              "same-key sub-selections that merge differently per runtime type, aliases), inline or through a named fragment, x failing-resolver sets (quick: 2)",
+        symbolic={"mask": "choice: which selection pieces", "reverse": "choice: order of the list items", "fail": "choice", "frag": "choice: named fragment"},
+        assumptions=["as exec_template"], witness={"mask": 3, "reverse": False, "fail": 0, "frag": False},
+    ),
     Cond(
         name="exec_template", fn=_exec_template, quick=150, thorough=900, per_path=60, shards_quick=16, shards_thorough=20,
         bound="%d valid operation templates over a fixed 10-type schema (fragments, inline fragments, aliases, same-key merges, @skip/@include on variables, interface and union resolution, "
